@@ -207,7 +207,7 @@ structure SetOfCfg where
   ssz : Nat            -- specs->struct_size
   esz : Nat            -- bytes allocated per element
   w : Nat              -- bits (UPER) / bytes (OER) consumed per element
-  rep0 : Bool          -- the element decoder reports `rv.consumed == 0`
+  rep0 : Bool          -- the element decoder reports `rv.consumed == 0` (read by the OER guard only)
   limit : Option Nat   -- the zero-width guard (`none` = no guard)
 deriving Repr
 
@@ -218,7 +218,9 @@ structure LoopState where
 deriving Repr
 
 /-- the `for(i = 0; i < nelems; i++)` loop of SET_OF_decode_uper; `todo` counts down, `nelems` is the
-    announced count the guard looks at -/
+    announced count the guard looks at.  The guard compares `pd->moved` before and after the element decoder
+    (`pd->moved == moved && nelems > 200`, finding F47 repaired): it fires exactly for elements that took no
+    bits, whatever `rv.consumed` the element decoder reports (INTEGER, ENUMERATED, SEQUENCE … report 0). -/
 def elemsUper (c : SetOfCfg) (nelems : Nat) : Nat → Bits → LoopState → Outcome × Bits × LoopState
   | 0, bits, s => (.ok, bits, s)
   | i + 1, bits, s =>
@@ -230,7 +232,7 @@ def elemsUper (c : SetOfCfg) (nelems : Nat) : Nat → Bits → LoopState → Out
       let s2 : LoopState := ⟨h2, cnt2, cap2⟩
       match c.limit with
       | some lim =>
-        if c.rep0 && decide (nelems > lim) then (.fail, bits.drop c.w, s2)
+        if decide (c.w = 0) && decide (nelems > lim) then (.fail, bits.drop c.w, s2)
         else elemsUper c nelems i (bits.drop c.w) s2
       | none => elemsUper c nelems i (bits.drop c.w) s2
 
